@@ -16,10 +16,17 @@ pub enum Op {
     NotInterested,
     /// let 21 s pass (rates get reported), then run the manager's real choke rotation
     Rotate,
+    /// the peer answers the client's own outstanding requests (it supplies the piece the client lacks)
+    ServeClient,
+    /// the peer unchokes the client (so that the client starts fetching from it)
+    UnchokeClient,
 }
 
 #[derive(Clone, Debug, Serialize, Deserialize)]
 pub struct Case {
+    /// the peer announces its piece by Have instead of a bitfield: the client then never unchokes it on arrival
+    #[serde(default)]
+    pub have_only: bool,
     pub piece_len: usize,
     pub last_len: usize,
     pub ops: Vec<Op>,
@@ -50,6 +57,8 @@ fn strategy() -> BoxedStrategy<Case> {
                 1 => Just(Op::Interested),
                 1 => Just(Op::NotInterested),
                 2 => Just(Op::Rotate),
+                2 => Just(Op::ServeClient),
+                1 => Just(Op::UnchokeClient),
             ];
             let valid = (1u32..2, 0u32..8, 1u32..=32).prop_map(|(i, b, l)| Op::Request(i, b, l));
             (Just(pl), 1..=pl, prop_oneof![
@@ -59,8 +68,17 @@ fn strategy() -> BoxedStrategy<Case> {
             ], vec(op, 1..30), Just(seed))
         })
         .prop_map(|(piece_len, last_len, mut pre, ops, seed)| {
+            let have_only = seed % 4 == 3;
+            if have_only {
+                // the peer supplies its piece first, then asks for it back while the client has never unchoked it
+                let mut p = vec![Op::UnchokeClient, Op::ServeClient, Op::ServeClient, Op::ServeClient, Op::ServeClient];
+                let lacked = if seed % 2 == 0 { 0u32 } else { 2u32 };
+                p.push(Op::Request(lacked, 0, 1));
+                p.extend(pre);
+                pre = p;
+            }
             pre.extend(ops);
-            Case { piece_len, last_len, ops: pre, seed }
+            Case { have_only, piece_len, last_len, ops: pre, seed }
         })
         .boxed()
 }
@@ -101,7 +119,16 @@ pub fn check(c: &Case) -> Outcome {
             net.handshake(w, p);
             // advertises exactly the pieces the client lacks: the client stays interested, "not interested" never ends the task
             let adv: Vec<bool> = owned.iter().map(|b| !*b).collect();
-            net.bitfield(w, p, &adv);
+            if c.have_only {
+                for (i, a) in adv.iter().enumerate() {
+                    if *a {
+                        net.have(w, p, i);
+                    }
+                }
+                classes.push("peer-announced-by-have-only");
+            } else {
+                net.bitfield(w, p, &adv);
+            }
             net.observe(w).await;
             net.interested(w, p, true);
             net.observe(w).await;
@@ -123,6 +150,12 @@ pub fn check(c: &Case) -> Outcome {
                             classes.push("begin+length-wraps-u32");
                         }
                     }
+                    Op::ServeClient => {
+                        if net.answer(w, p, 0).is_some() {
+                            classes.push("peer-supplied-a-block");
+                        }
+                    }
+                    Op::UnchokeClient => net.unchoke(w, p),
                     Op::Interested => net.interested(w, p, true),
                     Op::NotInterested => net.interested(w, p, false),
                     Op::Rotate => {
@@ -164,7 +197,8 @@ pub fn check(c: &Case) -> Outcome {
                                 Some(r) => {
                                     r.answers += 1;
                                     let i = *i as usize;
-                                    if i >= n || !owned[i] {
+                                    let owned_now = i < n && (owned[i] || w.snapshot().statuses[i] == rdest::verif::Status::Have);
+                                    if !owned_now {
                                         fails.push(("served-piece-not-owned".into(), format!("{} for a piece the client does not own", what)));
                                     } else {
                                         let piece = t2.piece(i);
@@ -229,14 +263,14 @@ pub fn check(c: &Case) -> Outcome {
 pub fn def() -> PropDef {
     PropDef {
         id: "C09",
-        rule: "the client downloads its pieces from an honest set-up peer (piece length from {100,16384,16385,20000,40000}, generated last-piece length; 2- and 3-piece torrents so that an owned piece is also the short last one); then one peer with a valid handshake sends a history of up to 30 ops: Request(index,begin,length) from an edge-biased u32^3 (valid ranges, ranges ending exactly at / one beyond the piece end, length 0/16384/16385/2^31/2^32-1, begin near 2^32 so that begin+length wraps, index of a piece the client lacks or beyond the piece count, switching between owned pieces), interested / not-interested, and the manager's real choke rotation after 21 virtual seconds (so the client really chokes and unchokes this peer). Oracle: every Piece frame answers exactly one earlier unanswered request with the same index, offset and length, carries exactly those bytes of the stored piece, <= 16 KiB, inside the piece, for an owned piece, and that request was sent while the client's last word to the peer was Unchoke; no task or manager panic. Non-trivial = at least one answered valid request and one request that must not be answered; distinct by hash of the case.",
+        rule: "the client downloads its pieces from an honest set-up peer (piece length from {100,16384,16385,20000,40000}, generated last-piece length; 2- and 3-piece torrents so that an owned piece is also the short last one); then one peer with a valid handshake (in a quarter of the cases announcing its piece by Have only, supplying it to the client and asking for it back although the client never unchoked it) sends a history of up to 30 ops: Request(index,begin,length) from an edge-biased u32^3 (valid ranges, ranges ending exactly at / one beyond the piece end, length 0/16384/16385/2^31/2^32-1, begin near 2^32 so that begin+length wraps, index of a piece the client lacks or beyond the piece count, switching between owned pieces), interested / not-interested, and the manager's real choke rotation after 21 virtual seconds (so the client really chokes and unchokes this peer). Oracle: every Piece frame answers exactly one earlier unanswered request with the same index, offset and length, carries exactly those bytes of the stored piece, <= 16 KiB, inside the piece, for an owned piece, and that request was sent while the client's last word to the peer was Unchoke; no task or manager panic. Non-trivial = at least one answered valid request and one request that must not be answered; distinct by hash of the case.",
         assumptions: &["requests are sent only after a quiescence barrier, so 'the client's last word' at the time a request is read is unambiguous"],
         subs: vec![Sub {
             name: "requests",
             cases: |t| t.pick(15_000, 200_000),
             run: |ctx| run_proptest(ctx, "requests", strategy(), check),
             replay: |v| replay_case::<Case>(v, check),
-            min_class: &[("valid-request-answered", 0.4), ("invalid-request-not-answered", 0.492), ("request-while-choked", 0.05), ("begin+length-wraps-u32", 0.0848), ("piece-switching", 0.03), ("rotation", 0.2207), ("client-choked-us", 0.03)],
+            min_class: &[("valid-request-answered", 0.4), ("invalid-request-not-answered", 0.492), ("request-while-choked", 0.05), ("begin+length-wraps-u32", 0.0848), ("piece-switching", 0.03), ("rotation", 0.2207), ("client-choked-us", 0.03), ("peer-announced-by-have-only", 0.1), ("peer-supplied-a-block", 0.05)],
         }],
     }
 }
